@@ -113,6 +113,20 @@ CHECKS = {
         'cross-validation.',
         'DESIGN.md §3, §4 C04',
     ),
+    'C05': (
+        'fault_enumeration',
+        'audit-hook crash-point recording with exhaustive enumeration of crash states and torn-file prefixes per '
+        'generated scenario, plus injected raised faults; recovery oracle on fresh chains',
+        'For every data kind x {first computation, forced recomputation} x generated parameter values, every '
+        'file-system-mutating event of the request is a crash point (directory snapshot before it) and every file being '
+        'written is torn at all (small files) or structurally chosen prefix lengths; ALL states of a scenario are checked: '
+        'a later chain either sees no result and recomputes exactly once, or sees the complete correct value. Raised '
+        'faults (before/within run, in generator bodies, mistyped, unserialisable) are checked for recovery in the same '
+        'and in a new chain, and for the work-directory protocol of DirData / ContinuesData.',
+        'Process death, not power loss (sequential writes persist up to the crash point); h5py and matplotlib figure I/O '
+        'are not exercised; states are probed by new chains in the same process.',
+        'DESIGN.md §4 C05',
+    ),
     'C06': (
         'exploration',
         'Hypothesis strategies per storable domain driven through real tasks in real chains; round-trip oracle with '
@@ -155,6 +169,19 @@ CHECKS = {
         'lengths of generated entries are enumerated (exhaustive per entry up to 400 bytes).',
         'Corrupt = content the loader rejects; single-threaded.',
         'DESIGN.md §4 C14',
+    ),
+    'C15': (
+        'exploration',
+        'deterministic cooperative scheduler owning the thread schedule (lock, file open/write-chunk/read, computer are '
+        'yield points); Hypothesis-drawn schedules plus bounded depth-first enumeration; safety oracle over the event log',
+        '2-3 real threads call get / get_or_compute / force on one key while the harness decides at every yield point '
+        'who moves next, so torn windows (between truncate and write, between write chunks, between a reader\'s reads) '
+        'are actually visited; every returned value must be a complete computation\'s value, computers and writers must '
+        'not overlap, the entry at quiescence must be the last complete write. Sampled schedules + bounded DFS; exhaustive '
+        'only where the DFS terminates within its bound (reported per configuration).',
+        'flock excludes threads with separate file descriptions exactly as it excludes processes; single reads/chunk '
+        'writes are atomic.',
+        'DESIGN.md §4 C15',
     ),
     'C16': (
         'exploration',
